@@ -9,3 +9,23 @@ Proof. intros Hw He. split; [intros ->; reflexivity|]. apply robdd_valid. apply 
 Theorem C01_unsat n f b : wf f -> eval_f n f = Some b -> (b = F <-> forall s, beval s b = false).
 Proof. intros Hw He. split; [intros ->; reflexivity|]. apply robdd_unsat. apply (sound n f b Hw He). Qed.
 Print Assumptions C01_sound. Print Assumptions C01_complete.
+
+(** the same over a text: whatever `tokenize` and `parse` turn the text into is the grammar's tree (C08),
+    its evaluation is that tree's documented meaning (C01), canonical (C02) and over free variables only (C09) *)
+From Coq Require Import List NArith.
+From Rsbdd Require Import Syntax.Tokenize Syntax.Grammar Cli.Pipeline Cli.PipelineFacts.
+Theorem C01_text uc ord txt p n b :
+  parsed_formula uc ord txt = Done p -> eval_f n (pf_form p) = Some b ->
+  exists ts, tokenize uc ord txt = Some ts /\ G_formula ts (pf_form p) /\
+    Den empty (pf_form p) (bden b) /\ robdd b /\
+    (forall x, In x (support b) -> In x (pf_free p)) /\
+    (b = T <-> forall s, beval s b = true) /\ (b = F <-> forall s, beval s b = false).
+Proof. exact (PipelineFacts.C01_text uc ord txt p n b). Qed.
+
+(** not vacuous: "exists a # a & b | lfp x # x | c" parses and evaluates (to b | c) *)
+Example C01_runs :
+  exists p b, parsed_formula (fun _ => Lexer.UOther) nil
+     (map N.of_nat (101 :: 120 :: 105 :: 115 :: 116 :: 115 :: 32 :: 97 :: 32 :: 35 :: 32 :: 97 :: 32 :: 38 :: 32 :: 98 :: 32 :: 124 :: 32 ::
+                    108 :: 102 :: 112 :: 32 :: 120 :: 32 :: 35 :: 32 :: 120 :: 32 :: 124 :: 32 :: 99 :: nil)) = Done p
+     /\ eval_f 50 (pf_form p) = Some b /\ b = Nd T 1 (Nd T 3 F).
+Proof. eexists. eexists. split; [vm_compute; reflexivity|]. split; vm_compute; reflexivity. Qed.
